@@ -54,8 +54,27 @@ def main():
         s = s.replace("@@STATE@@", "<!-- state:begin -->\n" + txt + "<!-- state:end -->")
     else:
         s = re.sub(r"<!-- state:begin -->.*?<!-- state:end -->", lambda m: "<!-- state:begin -->\n" + txt + "<!-- state:end -->", s, flags=re.S)
+    # section 13: seeded changes
+    import glob
+    rows = ["| id | breaks | change | needs, in order to manifest | caught by (quick tier unless said) |", "|---|---|---|---|---|"]
+    for f in sorted(glob.glob(os.path.join(VERIF, "seeded", "*", "meta.json"))):
+        m = json.load(open(f))
+        sid = os.path.basename(os.path.dirname(f))
+        caught = []
+        for key, r in sorted(m.get("checks", {}).items()):
+            c, tier = key.split(":")
+            if r.get("violation_lines"):
+                kind = r.get("replay_kind") or ""
+                what = (r.get("replay_summary") or {}).get("kind") or ""
+                caught.append(f"{c}{'' if tier == 'quick' else ' (' + tier + ')'}: {kind}{' / ' + str(what) if what else ''}")
+            else:
+                caught.append(f"{c}{'' if tier == 'quick' else ' (' + tier + ')'}: **missed**")
+        rows.append(f"| {sid} | {m.get('property','')} | {m.get('change','')} | {m.get('needs_to_manifest','')} | {'; '.join(caught)} |")
+    sec = "\n".join(rows) + "\n"
+    if "<!-- seeded:begin -->" in s:
+        s = re.sub(r"<!-- seeded:begin -->.*?<!-- seeded:end -->", lambda m_: "<!-- seeded:begin -->\n" + sec + "<!-- seeded:end -->", s, flags=re.S)
     open(p, "w").write(s)
-    print("DESIGN.md section 0 regenerated")
+    print("DESIGN.md sections 0 and 13 regenerated")
 
 
 if __name__ == "__main__":
